@@ -34,7 +34,8 @@ def gen(rng, n, tier):
         size = 1
         for a in axes: size *= a[3]
         freq = [rng.choice([0, 1, 2, 5]) for _ in range(size)]
-        init = [["axes", axes], ["freq", freq], ["err2", list(freq)], ["missed", [0] * (3 if nd == 1 else 1)], ["keep_missed", "T"]]
+        init = [["axes", axes], ["freq", freq], ["err2", list(freq)], ["missed", [0] * (3 if nd == 1 else 1)],
+                ["keep_missed", "F" if rng.random() < 0.15 else "T"]]      # tracking of missed values off: adaptive bins must grow all the same
         def val(k):
             w, sh = axes[k][0], axes[k][1]
             r = rng.random()
@@ -75,9 +76,10 @@ def _mk(init):
         bs.append(FixedWidthBinning(**kw))
     shape = [a[3] for a in d["axes"]]
     freq = np.array([float(x) for x in d["freq"]], dtype=float).reshape(shape)
-    if len(bs) == 1: return Histogram1D(bs[0], freq, errors2=freq.copy())
+    keep = d.get("keep_missed", "T") == "T"
+    if len(bs) == 1: return Histogram1D(bs[0], freq, errors2=freq.copy(), keep_missed=keep)
     cls = Histogram2D if len(bs) == 2 else HistogramND
-    return cls(bs, freq, errors2=freq.copy())
+    return cls(bs, freq, errors2=freq.copy(), keep_missed=keep)
 
 def _obs(ret, h):
     import numpy as np
